@@ -64,8 +64,89 @@ let run_hm (ops : string list) : string =
   String.concat "|" recs
 
 
+(* ---- generated unordered_multimap::operator== / erase(first,last) over primitive tables evaluated on the REAL containers *)
+let run_ugt (toks : string list) : string =
+  let a = Array.of_list toks in
+  let n = Array.length a in
+  let zi = z_of_int and iz = int_of_z in
+  let i = ref 0 in
+  let next () = let t = a.(!i) in incr i; t in
+  let out = Buffer.create 64 in
+  (* EQ cntL cntR {lk enc count findidx perm}* {rk enc count}* *)
+  assert (next () = "EQ");
+  let cntl = int_of_string (next ()) in let cntr = int_of_string (next ()) in
+  let lks = ref [] and rks = ref [] in
+  while !i < n && (a.(!i) = "lk" || a.(!i) = "rk") do
+    if next () = "lk" then begin
+      let e = int_of_string (next ()) in let c = int_of_string (next ()) in let f = int_of_string (next ()) in let p = int_of_string (next ()) in
+      lks := (e, c, f, p) :: !lks end
+    else begin let e = int_of_string (next ()) in let c = int_of_string (next ()) in rks := (e, c) :: !rks end
+  done;
+  let lk = Array.of_list (Stdlib.List.rev !lks) and rk = Array.of_list (Stdlib.List.rev !rks) in
+  let is_l z = z >= 10 && z mod 2 = 0 and is_r z = z >= 11 && z mod 2 = 1 in
+  let count_ z = let z = iz z in
+    zi (if z = 0 then cntl else if z = 1 then cntr
+        else if is_l z then (let (_, c, _, _) = lk.((z - 10) / 2) in c) else if is_r z then snd rk.((z - 11) / 2) else 0) in
+  let key_ z = let z = iz z in
+    zi (if is_l z then (let (e, _, _, _) = lk.((z - 10) / 2) in e) else if is_r z then fst rk.((z - 11) / 2) else -1) in
+  let find_ _h keyv = let kv = iz keyv in
+    let r = ref (-1) in
+    Array.iter (fun (e, _, f, _) -> if e = kv && f >= 0 then r := 11 + 2 * f) lk; zi !r in
+  let is_null z = iz z < 0 in
+  let is_perm x _ _ = let z = iz x in if is_l z then (let (_, _, _, p) = lk.((z - 10) / 2) in p = 1) else false in
+  let range_fold _h f =
+    let res = ref None in
+    Array.iteri (fun j _ -> if !res = None then res := f (zi (10 + 2 * j))) lk; !res in
+  let eq = Gen_WrapEq.op_eq count_ find_ key_ is_null is_perm (fun z -> z) (fun z -> z) range_fold (zi 0) (zi 1) in
+  Buffer.add_string out (if eq then "eq 1" else "eq 0");
+  (* ER n {k count pos_0..pos_count}* {p kidx keyid val}* {rg a b}* *)
+  assert (next () = "ER");
+  let npos = int_of_string (next ()) in
+  let kcs = ref [] in
+  while !i < n && a.(!i) = "k" do
+    ignore (next ()); let c = int_of_string (next ()) in
+    let ps = Array.init (c + 1) (fun _ -> int_of_string (next ())) in kcs := (c, ps) :: !kcs done;
+  let keys = Array.of_list (Stdlib.List.rev !kcs) in
+  let prs = ref [] in
+  while !i < n && a.(!i) = "p" do
+    ignore (next ()); let kx = int_of_string (next ()) in let kid = int_of_string (next ()) in let v = int_of_string (next ()) in
+    prs := (kx, kid, v) :: !prs done;
+  let pairs = Array.of_list (Stdlib.List.rev !prs) in
+  let it_eqb x y = BinInt.Z.eqb x y and it_neqb x y = not (BinInt.Z.eqb x y) in
+  let key_of p = let p = iz p in if p >= 0 && p < npos then (let (kx, _, _) = pairs.(p) in zi (1000 + kx)) else zi (-1) in
+  let key_count h = let h = iz h in if h >= 1000 then zi (fst keys.(h - 1000)) else zi 0 in
+  let mm_make h j = let h = iz h in
+    if h <= -2000 then zi h                                     (* MakeIterator(RemoveKey(..)): the iterator erase returns *)
+    else if h >= 1000 then (let (c, ps) = keys.(h - 1000) in let j = iz j in if j >= 0 && j <= c then zi ps.(j) else zi (-7)) else zi (-7) in
+  let remove_key h = zi (- (2000 + (iz h - 1000))) in
+  let remove_value p = zi (- (5000 + iz p)) in
+  while !i < n && a.(!i) = "rg" do
+    ignore (next ()); let x = int_of_string (next ()) in let y = int_of_string (next ()) in
+    let res = Gen_WrapErase.erase_range it_eqb it_neqb (zi npos) (zi 0) (fun p -> BinInt.Z.add p (zi 1)) (fun _ -> zi 1)
+                key_of key_count mm_make remove_key remove_value (zi 0) (zi x) (zi y) in
+    let keep = match res with
+      | GenPrelude.Ok (it, st) ->
+          let it = iz it in
+          if iz st = 1 then Some (fun _ _ -> false)
+          else if it <= -5000 then (let p = - it - 5000 in Some (fun q _ -> q <> p))
+          else if it <= -2000 then (let k = - it - 2000 in Some (fun _ kx -> kx <> k))
+          else Some (fun _ _ -> true)
+      | _ -> None in
+    Buffer.add_string out " rg ";
+    (match keep with
+     | None -> Buffer.add_string out "throw"
+     | Some kp ->
+         let l = ref [] in
+         Array.iteri (fun q (kx, kid, v) -> if kp q kx then l := (kid, v) :: !l) pairs;
+         let l = Stdlib.List.sort compare !l in
+         if l = [] then Buffer.add_string out "-"
+         else Buffer.add_string out (String.concat "," (Stdlib.List.map (fun (k, v) -> Printf.sprintf "%d:%d" k v) l)))
+  done;
+  Buffer.contents out
+
 let () = iter_lines (fun line ->
   match words line with
   | ("gc" | "ms" | "gp" | "fi") :: _ as w -> print_endline (run_gen w)
   | ("hm" | "hx") :: ops -> print_endline (run_hm ops)
+  | "ugt" :: toks -> print_endline (run_ugt toks)
   | _ -> print_endline "?")
